@@ -23,6 +23,10 @@ impl Group for PoolGroup {
             // regression witness (DESIGN §6 D11): the first stream of a new session is open, min_idle = 0, one tick after the timeout
             l(&["pool reset 100 200 0", "pool mk", "pool add 0", "pool open 0", "pool adv 400", "pool state"]),
             l(&["pool reset 50 100 2", "pool mk", "pool mk", "pool mk", "pool add 0", "pool add 1", "pool add 2", "pool adv 300", "pool state", "pool get", "pool get", "pool get", "pool get"]),
+            // a request lands inside a pass of the periodic reaper whose shutdowns are slow
+            l(&["pool reset 100 300 1", "pool mk", "pool mk", "pool mk", "pool add 0", "pool add 1", "pool add 2", "pool adv 250", "pool racebg 25"]),
+            l(&["pool reset 100 300 0", "pool mk", "pool mk", "pool mk", "pool mk", "pool add 0", "pool add 1", "pool add 2", "pool add 3", "pool adv 250", "pool racebg 40"]),
+            l(&["pool reset 50 100 2", "pool mk", "pool mk", "pool mk", "pool mk", "pool add 3", "pool add 1", "pool add 0", "pool add 2", "pool adv 60", "pool racebg 7"]),
             // an old healthy session and a recently parked one that died: the dead one must not use up the idle minimum (both seq orders)
             l(&["pool reset 100 600 1", "pool mk", "pool mk", "pool add 1", "pool adv 450", "pool add 0", "pool die 0", "pool adv 250", "pool state", "pool get", "pool state"]),
             l(&["pool reset 100 600 1", "pool mk", "pool mk", "pool add 0", "pool adv 450", "pool add 1", "pool die 1", "pool adv 250", "pool state", "pool get", "pool state"]),
@@ -63,6 +67,17 @@ impl Group for PoolGroup {
             if rng.chance(1, 2) { lines.push("pool cleanup".into()); lines.push("pool state".into()); }
             for _ in 0..k { lines.push("pool get".into()); }
             lines.push("pool state".into());
+            return Case { lines };
+        }
+        if rng.chance(1, 10) {
+            let k = rng.range(2, 6);
+            for _ in 0..k { lines.push("pool mk".into()); }
+            let mut order: Vec<u64> = (0..k).collect();
+            for i in (1..order.len()).rev() { let j = rng.below(i as u64 + 1) as usize; order.swap(i, j); }
+            for i in &order { lines.push(format!("pool add {i}")); if rng.chance(1, 3) { lines.push(format!("pool adv {}", rng.pick(&[10u64, 50, timeout / 2]))); } }
+            if rng.chance(1, 3) { lines.push(format!("pool die {}", rng.pick(&order))); }
+            lines.push(format!("pool adv {}", timeout.saturating_sub(*rng.pick(&[10u64, 30, 50]))));
+            lines.push(format!("pool racebg {}", rng.pick(&[3u64, 7, 25, 40])));
             return Case { lines };
         }
         if rng.chance(1, 3) {
@@ -206,6 +221,36 @@ impl Group for PoolGroup {
                         tokio::time::sleep(Duration::from_millis(1)).await;
                         "ok".into()
                     }
+                    ["pool", "racebg", ms] => {
+                        // last op of a case: the PERIODIC reaper's next pass runs with session shutdowns that take `ms` each, and
+                        // a request arrives while that pass is under way (detected by the first session it closes).  The model has
+                        // no notion of "inside a pass": this op is judged by the oracles only.
+                        let Some(p) = pool.as_ref() else { out.obs.push("nonode".into()); continue; };
+                        let ms: u64 = ms.parse().unwrap_or(0);
+                        for n in nodes.iter() { n.wire.lock().unwrap().shutdown_delay = Some(Duration::from_millis(ms)); }
+                        let limit = 3 * cfg.0 + cfg.1 + 100;
+                        let mut started = false;
+                        for _ in 0..limit {
+                            if idle_shadow.iter().any(|i| !was_closed[*i] && nodes[*i].session.is_closed()) { started = true; break; }
+                            tokio::time::sleep(Duration::from_millis(1)).await;
+                        }
+                        let got = tokio::time::timeout(Duration::from_millis(ms * (nodes.len() as u64 + 2) + 1000), p.get_idle_session()).await.unwrap_or(None);
+                        let o = match &got {
+                            Some(sn) => {
+                                let idx = nodes.iter().position(|n| Arc::ptr_eq(&n.session, sn)).unwrap_or(999);
+                                idle_shadow.retain(|x| *x != idx);
+                                if idx < nodes.len() { taken.push(idx); }
+                                if sn.is_closed() { out.oracle.push(OracleFail { sig: "closed_session_handed_out/get_idle_session".into(), detail: format!("session {idx} is closed") }); }
+                                // the application starts using it
+                                if let Ok((st, _)) = sn.open_stream().await { held.push(st); if idx < open_streams.len() { open_streams[idx] += 1; } }
+                                format!("some {idx}")
+                            }
+                            None => "none".into(),
+                        };
+                        // let the pass finish
+                        tokio::time::sleep(Duration::from_millis(ms * (nodes.len() as u64 + 1) + 20)).await;
+                        format!("raced={} {o}", started as u8)
+                    }
                     ["pool", "adv", ms] => {
                         let ms: u64 = ms.parse().unwrap_or(0);
                         tokio::time::sleep(Duration::from_millis(ms)).await;
@@ -233,7 +278,8 @@ impl Group for PoolGroup {
                 }
                 // O (C12): housekeeping never closes a healthy session when that leaves fewer idle sessions than the configured minimum
                 let closed_by_hk: Vec<usize> = nodes.iter().enumerate().filter(|(i, n)| *i < was_closed.len() && !was_closed[*i] && n.session.is_closed() && by_owner != Some(*i)).map(|(i, _)| i).collect();
-                if !closed_by_hk.is_empty() {
+                // (racebg takes a session out of the map in the same op: what is left afterwards says nothing about the pass)
+                if !closed_by_hk.is_empty() && !matches!(toks.as_slice(), ["pool", "racebg", _]) {
                     if let Some(p) = pool.as_ref() {
                         let idle_after = p.idle_count().await;
                         // the sessions that count are the usable ones: entries of the idle map that are still open
